@@ -11,6 +11,8 @@ import Astria.Block.Build
   other items by their length (hypothesis `ItemsOk`: no other item is 32 bytes long — signed
   transactions and the extended commit info never are).
 -/
+set_option linter.unusedSectionVars false
+
 namespace Astria.Block
 open Astria.Merkle
 
